@@ -38,6 +38,11 @@ if [ -f "$VERIF/checks/$id/overlay.conf" ]; then
   OVFLAG=(-overlay "$B/ov-$id/overlay.json")
 fi
 
+if [ -f "$VERIF/checks/$id/prebuild.sh" ]; then
+  "$GO" build -o "$VERIF/.build/vgen" ./cmd/vgen || exit 2
+  . "$VERIF/checks/$id/prebuild.sh"
+fi
+
 if ! "$GO" build "${MODFLAG[@]}" "${OVFLAG[@]}" -o "$B/$id" "./checks/$id" 2> "$B/$id.buildlog" && [ -f "$VERIF/checks/$id/overlay.fallback.conf" ]; then
   # the overlay-only export file does not compile against this tree: degrade to black-box mode
   echo "[$ID] note: overlay export does not build against this tree; falling back to black-box mode" >&2
